@@ -514,6 +514,10 @@ def plan_C10(c):
 
 
 def plan_C11(c):
+    # design level: format.rs in miniature (precision branches, "first round, then abs", sign from the original coefficient)
+    c.mc('MC_Format', cfg='MC_Format_ok' if c.tier == 'quick' else 'MC_Format_ok_thorough')
+    for ctl in ('abs_first', 'trunc', 'sign_after', 'no_clamp'):
+        c.mc('MC_Format', cfg='MC_Format_' + ctl, expect='violation')
     g_small(c, ['fmt'])
     v(c, 'c11', 4000, 120000)
 
@@ -603,6 +607,7 @@ def plan_C14(c):
 def plan_C15(c):
     c.mc('MC_SpecLaws', cfg='MC_SpecLaws' if c.tier != 'quick' else 'MC_SpecLaws_quick')
     c.mc('MC_Refine', cfg='MC_Refine_tight')      # non-vacuity of the oracle: neighbouring coefficients and wrong failure signals are rejected
+    c.mc('MC_Refine', cfg='MC_Refine_floor_sign', expect='violation')      # unops.rs: floor that tests the dividend instead of the remainder (seed C15-e)
     uops = ['floor', 'ceil', 'trunc', 'fract', 'abs', 'nt_abs', 'neg', 'neg_ref', 'signum']
     oops = ['magnitude', 'eq_zero', 'eq_one', 'is_negative', 'is_positive', 'is_zero', 'is_one', 'nt_is_negative', 'nt_is_positive']
     # every single point (powers of two / ten / five with neighbours, scaling bounds) x every scale; three unary and three
